@@ -358,6 +358,13 @@ func (s *arrayStub) UnmarshalJSON(data []byte) error {
 	if err != nil {
 		return err
 	}
+	if _, ok := s.v.(interface{ DisallowUnknownFields() }); ok {
+		// The stub hides this method from (*jrpc2.Request).UnmarshalParams,
+		// so honor it here.
+		dec := json.NewDecoder(bytes.NewReader(actual))
+		dec.DisallowUnknownFields()
+		return dec.Decode(s.v)
+	}
 	return json.Unmarshal(actual, s.v)
 }
 
